@@ -236,7 +236,8 @@ class LocalEnv:
     def is_alias(self, decl):
         """is this declared local replaced by its initialiser wherever it is used (role-less, pure, never modified, time-invariant)?"""
         d = decl.get('loc')
-        if not self.alias or d in self.rename or d in self.no_alias or decl.get('bindings') or not isinstance(decl.get('init'), dict):
+        isref = (decl.get('t') or '').rstrip().endswith('&')
+        if not self.alias or d in self.rename or (d in self.no_alias and not isref) or decl.get('bindings') or not isinstance(decl.get('init'), dict):
             return False
         if self.definition({'dloc': d}) is None:
             return False
@@ -281,7 +282,7 @@ class LocalEnv:
             return None
         t0 = self.types.get(d) or ''
         t = t0.replace('const ', '')
-        if t.startswith(self._CONTAINERS) and not t0.startswith('const '):
+        if t.startswith(self._CONTAINERS) and not t0.startswith('const ') and not t0.rstrip().endswith('&'):
             return None         # a container being filled; a const (reference to a) container is only a name for the expression it was initialised with
         x = init
         while isinstance(x, dict) and x.get('k') in ('UnaryOperator', 'CXXOperatorCallExpr') and x.get('op') == '*':
@@ -329,7 +330,8 @@ def canon(n, env=None, depth=0, subst=True):
                 and n.get('dloc') not in env.rename:
             # alias mode (clause schemas): a local WITHOUT a role that is a pure, never re-assigned definition is just a name for its initialiser
             d = env.definition(n)
-            if d is not None and n.get('dloc') not in getattr(env, 'no_alias', ()) and env.time_invariant(n.get('dloc'), d):
+            isref = (env.types.get(n.get('dloc')) or '').rstrip().endswith('&')        # a reference names an object: what is done through it is done to that object
+            if d is not None and (isref or n.get('dloc') not in getattr(env, 'no_alias', ())) and env.time_invariant(n.get('dloc'), d):
                 return canon(d, env, depth + 1, subst)
         if n.get('refk') == 'EnumConstant':
             return n['ref'].rsplit('::', 1)[-1]
@@ -434,6 +436,8 @@ def canon(n, env=None, depth=0, subst=True):
                 fld = _getter_field(env.fs, n.get('callee'))
                 if fld is not None:
                     return ('.', rec(base), fld)
+        if name.startswith('std::') and name.endswith('::emplace_back') and len(args) == 1:
+            name = name[:-len('emplace_back')] + 'push_back'        # appending one existing element: one spelling
         if me.get('k') != 'MemberExpr':
             return ('mcall', name, rec(me)) + tuple(args)
         if base is None or base.get('k') == 'CXXThisExpr':
